@@ -110,7 +110,7 @@ impl Sub {
     /// wrong programs. Every other substitute must be rejected exactly when it makes the
     /// instruction's accounts inconsistent (belonging to different groups / banks).
     fn always_illegitimate(&self) -> bool {
-        self.forge.is_some() || self.what.starts_with("other-kind") || self.what.contains("program") || self.what == "another wallet" || self.what.contains("not the canonical")
+        (self.forge.is_some() && !self.what.starts_with("look-alike mint")) || self.what.starts_with("other-kind") || self.what.contains("program") || self.what == "another wallet" || self.what.contains("not the canonical")
     }
 }
 
@@ -310,7 +310,11 @@ fn substitutes(e: &Env, s: &Store, k: &Pubkey) -> (String, Vec<Sub>) {
     if a.owner == spl_token::id() || a.owner == spl_token_2022::id() {
         if a.data.len() == 82 || (a.data.len() > 165 && a.data[165] == 1) {
             let other = if *k == w.banks[0].mint { w.banks[1].mint } else { w.banks[0].mint };
-            return ("mint".into(), vec![Sub { what: "another mint", key: other, forge: None }]);
+            // a look-alike whose supply is a tenth: matters where the mint is an oracle input (staked banks)
+            let mut thin = copy_with(a, None, false);
+            let sup = u64::from_le_bytes(thin.data[36..44].try_into().unwrap());
+            thin.data[36..44].copy_from_slice(&(sup / 10).max(1).to_le_bytes());
+            return ("mint".into(), vec![Sub { what: "another mint", key: other, forge: None }, Sub { what: "look-alike mint with a tenth of the supply at another address", key: key("c08:lookalike:mint"), forge: Some(thin) }]);
         }
         if *k == ix::emissions_vault(&w.banks[0].key, &e.em_mint) {
             return ("emissions_vault".into(), vec![Sub { what: "the foreign bank's emissions vault", key: ix::emissions_vault(&f.banks[0].key, &e.em_mint), forge: None }, Sub { what: "look-alike at another address", key: key("c08:lookalike:emvault"), forge: Some(copy_with(a, None, false)) }]);
@@ -322,6 +326,14 @@ fn substitutes(e: &Env, s: &Store, k: &Pubkey) -> (String, Vec<Sub>) {
             return ("global_fee_ata".into(), vec![Sub { what: "another token account of the same mint (not the canonical fee-wallet ATA)", key: w.users[1].tokens[&w.banks[0].mint], forge: None }]);
         }
         return ("user_token_account(unprotected)".into(), vec![]);
+    }
+    if a.owner == marginfi::constants::NATIVE_STAKE_ID {
+        // a delegated stake account of somebody else's making: ten times the stake
+        let mut fat = copy_with(a, None, false);
+        let off = 4 + 120 + 32;
+        let st = u64::from_le_bytes(fat.data[off..off + 8].try_into().unwrap());
+        fat.data[off..off + 8].copy_from_slice(&st.saturating_mul(10).to_le_bytes());
+        return ("stake_pool".into(), vec![Sub { what: "a foreign delegated stake account with ten times the stake", key: key("c08:foreign:stakepool"), forge: Some(fat) }, Sub { what: "look-alike stake account with identical bytes at another address", key: key("c08:lookalike:stakepool"), forge: Some(copy_with(a, None, false)) }]);
     }
     if *k == w.fee_wallet {
         return ("global_fee_wallet".into(), vec![Sub { what: "another wallet", key: act::stranger(), forge: None }]);
@@ -461,7 +473,30 @@ pub fn run(_tier: Tier) -> Outcome {
                         let mut gp = s0.clone();
                         process_tx(&mut gp, &gtx);
                         if crate::canon::state_key(&t2, &[]) == crate::canon::state_key(&gp, &[]) {
-                            *st.classes.entry(format!("substitute:{}:slot_ignored_by_program", class)).or_insert(0) += 1;
+                            // same outcome as the golden call: is the slot ignored, or was the impostor read and
+                            // accepted? Present the same impostor with its data zeroed: a program that never
+                            // looks at the slot cannot tell the difference
+                            let mut s2 = s1.clone();
+                            let mut blank = sub.forge.clone().unwrap();
+                            blank.digest = Default::default();
+                            for b in blank.data.iter_mut() {
+                                *b = 0;
+                            }
+                            s2.set(sub.key, blank);
+                            let mut t3 = s2.clone();
+                            let r3 = process_tx(&mut t3, &tx);
+                            t3.accts.remove(&sub.key);
+                            if r3.ok() && crate::canon::state_key(&t3, &[]) == crate::canon::state_key(&gp, &[]) {
+                                *st.classes.entry(format!("substitute:{}:slot_ignored_by_program", class)).or_insert(0) += 1;
+                                continue;
+                            }
+                            *st.classes.entry(format!("substitute:{}:read_and_ACCEPTED", class)).or_insert(0) += 1;
+                            st.found.push(Found {
+                                clause: "C08.substitution_rejected".into(),
+                                sig: format!("{}:slot{}:{}", g.name, j, class),
+                                detail: format!("{} (instruction #{ii}) accepted {} in account slot {} ({}); the program does read this slot (the same impostor with zeroed data changes the result)", g.name, sub.what, j, class),
+                                replay: json!({"model": "C08sub", "golden": g.name, "ix": ii, "slot": j, "what": sub.what}),
+                            });
                             continue;
                         }
                     }
@@ -480,6 +515,138 @@ pub fn run(_tier: Tier) -> Outcome {
             }
         }
     }
+    // ---- cooperating substitution: the group slot names the foreign group AND the signer is one of
+    // the foreign group's role holders (who is, legitimately, admin of *that* group)
+    let foreign_signers: Vec<(&str, Pubkey)> = vec![("foreign_group_admin", e.f.roles.admin), ("foreign_risk_admin", e.f.roles.risk), ("foreign_emode_admin", e.f.roles.emode)];
+    for g in &gs {
+        let s0 = (g.prep)(&e);
+        let states: Vec<AState> = if let (Kind::User { .. }, Some(_)) = (g.kind, g.subject) { vec![AState::Normal, AState::Frozen] } else { vec![AState::Normal] };
+        for stt in states {
+            let mut s1 = s0.clone();
+            if let Some(u) = g.subject {
+                if stt != AState::Normal {
+                    apply_state(&e, &mut s1, u, stt);
+                }
+            }
+            for (sname, sg) in &foreign_signers {
+                let mut tx = (g.make)(&e, &s1, *sg);
+                let mut has_group = false;
+                for i in tx.ixs.iter_mut() {
+                    if i.program_id != marginfi::ID {
+                        continue;
+                    }
+                    for m in i.accounts.iter_mut() {
+                        if m.pubkey == e.w.group {
+                            m.pubkey = e.f.group;
+                            has_group = true;
+                        }
+                    }
+                }
+                if !has_group || entitled(&e, g.role, sg) {
+                    continue;
+                }
+                let mut t = s1.clone();
+                let r = process_tx(&mut t, &tx);
+                st.cells += 1;
+                let changed = crate::canon::state_key(&t, &[]) != crate::canon::state_key(&s1, &[]);
+                *st.classes.entry(format!("foreign_group_and_signer:{:?}:{}", stt, if r.ok() && changed { "ACCEPTED" } else if r.ok() { "accepted_without_effect" } else { "refused" })).or_insert(0) += 1;
+                if r.ok() && changed {
+                    // legitimate only if nothing of the main group was touched
+                    let touched_main = t.accts.iter().any(|(k, a)| {
+                        s1.get(k).map(|b| b != &**a).unwrap_or(true) && a.owner == marginfi::ID && a.data.len() > 8 && {
+                            let d = &a.data[..8];
+                            (d == discriminators::ACCOUNT && world::account(&t, k).group == e.w.group) || (d == discriminators::BANK && world::bank(&t, k).group == e.w.group) || *k == e.w.group
+                        }
+                    }) || s1.accts.iter().any(|(k, a)| a.owner == marginfi::ID && a.data.len() > 8 && a.data[..8] == discriminators::ACCOUNT && world::account(&s1, k).group == e.w.group && t.get(k).map(|b| &**a != b).unwrap_or(true));
+                    if touched_main {
+                        st.found.push(Found {
+                            clause: "C08.substitution_rejected".into(),
+                            sig: format!("{}:foreign_group+{}:{:?}", g.name, sname, stt),
+                            detail: format!("{} with the foreign group in the group slot, signed by the {} ({:?} subject account), succeeded and changed accounts of the main group", g.name, sname, stt),
+                            replay: json!({"model": "C08coop", "golden": g.name, "signer": sname, "state": format!("{:?}", stt)}),
+                        });
+                    }
+                }
+            }
+        }
+    }
+    // ---- role rotation: marginfi_group_configure must install exactly the requested key in exactly
+    // the named role, whatever it coincides with; the old holder loses the role's instructions
+    {
+        let w = &e.w;
+        let cur = [w.roles.admin, w.roles.emode, w.roles.curve, w.roles.limit, w.roles.emissions, w.roles.metadata, w.roles.risk];
+        let names = ["admin", "emode_admin", "curve_admin", "limit_admin", "emissions_admin", "metadata_admin", "risk_admin"];
+        let role_of = [Role::GroupAdmin, Role::Emode, Role::Curve, Role::Limit, Role::Emissions, Role::Metadata, Role::Risk];
+        let read = |s: &Store| -> [Pubkey; 7] {
+            let g = world::group(s, &w.group);
+            [g.admin, g.emode_admin, g.delegate_curve_admin, g.delegate_limit_admin, g.delegate_emissions_admin, g.metadata_admin, g.risk_admin]
+        };
+        for r in 0..7 {
+            let mut values: Vec<(String, Pubkey)> = vec![("a fresh key".into(), key(&format!("c08:rotated:{}", names[r]))), ("the zero key".into(), Pubkey::default())];
+            for o in 0..7 {
+                if o != r {
+                    values.push((format!("the current {}", names[o]), cur[o]));
+                }
+            }
+            // two roles moved to one fresh key in the same call
+            for (vname, v) in values {
+                for also in [None, Some((r + 1) % 7)] {
+                    if r == 0 && v == Pubkey::default() {
+                        continue;
+                    }
+                    let mut want = cur;
+                    want[r] = v;
+                    if let Some(o) = also {
+                        if o == 0 {
+                            continue;
+                        }
+                        want[o] = v;
+                    }
+                    let roles = ix::GroupRoles { admin: want[0], emode: want[1], curve: want[2], limit: want[3], emissions: want[4], metadata: want[5], risk: want[6] };
+                    let mut t = e.s.clone();
+                    let res = process_tx(&mut t, &Tx::one(ix::group_configure(w.group, w.roles.admin, &roles, None, None), &[w.roles.admin]));
+                    st.cells += 1;
+                    if !res.ok() {
+                        *st.classes.entry("rotation:refused".into()).or_insert(0) += 1;
+                        continue;
+                    }
+                    *st.classes.entry("rotation:ok".into()).or_insert(0) += 1;
+                    let got = read(&t);
+                    if got != want {
+                        let which: Vec<String> = (0..7).filter(|i| got[*i] != want[*i]).map(|i| format!("{} is {} instead of {}", names[i], world::label_of(&got[i]), world::label_of(&want[i]))).collect();
+                        st.found.push(Found {
+                            clause: "C08.role_rotation_takes_effect".into(),
+                            sig: format!("rotate:{}", names[r]),
+                            detail: format!("marginfi_group_configure setting {} to {}{} succeeded but {}", names[r], vname, also.map(|o| format!(" (and {} to the same key)", names[o])).unwrap_or_default(), which.join("; ")),
+                            replay: json!({"model": "C08rot", "role": names[r], "value": vname}),
+                        });
+                        continue;
+                    }
+                    // behavioural confirmation: the old holder can no longer run the role's instruction
+                    if cur[r] != v && r != 0 {
+                        if let Some(g) = gs.iter().find(|g| g.role == role_of[r]) {
+                            let mut s0 = (g.prep)(&e);
+                            let res = process_tx(&mut s0, &Tx::one(ix::group_configure(w.group, w.roles.admin, &roles, None, None), &[w.roles.admin]));
+                            if res.ok() {
+                                let tx = (g.make)(&e, &s0, cur[r]);
+                                let (ok, _) = run_tx(&s0, &tx);
+                                st.cells += 1;
+                                *st.classes.entry(format!("rotation:old_holder:{}", if ok { "ACCEPTED" } else { "refused" })).or_insert(0) += 1;
+                                if ok && !want.iter().enumerate().any(|(i, k)| *k == cur[r] && i == r) && !(want[0] == cur[r]) {
+                                    st.found.push(Found {
+                                        clause: "C08.role_rotation_takes_effect".into(),
+                                        sig: format!("rotate:{}:old_holder", names[r]),
+                                        detail: format!("after {} was moved to {}, the previous holder still ran {}", names[r], vname, g.name),
+                                        replay: json!({"model": "C08rot", "role": names[r], "value": vname}),
+                                    });
+                                }
+                            }
+                        }
+                    }
+                }
+            }
+        }
+    }
     let mut o = Outcome { level: "exploration".into(), ..Default::default() };
     o.found = st.found;
     if gs.len() - st.not_exercised.len() < 30 {
@@ -492,7 +659,7 @@ pub fn run(_tier: Tier) -> Outcome {
     o.coverage = json!({
         "evaluations": st.cells,
         "distinct_nontrivial": refused,
-        "rule": "for each instruction a golden call (asserted to succeed from its prepared state); then every cell of instruction x 12 signer identities, every cell of (balance-changing instruction) x {frozen, in-receivership, in-flash-loan, disabled} x 12 signers, and every cell of instruction x account slot x substitute (foreign group's group/bank/account/staked settings, another bank's vaults / authorities / oracle, other-kind vault, look-alike PDA with identical bytes, wrong owner program, wrong discriminator, another program, another mint); a cell outside the role table of the statement must be refused; distinct_nontrivial = refused cells",
+        "rule": "for each instruction a golden call (asserted to succeed from its prepared state); then every cell of instruction x 12 signer identities, every cell of (balance-changing instruction) x {frozen, in-receivership, in-flash-loan, disabled} x 12 signers, and every cell of instruction x account slot x substitute (foreign group's group/bank/account/staked settings, another bank's vaults / authorities / oracle, other-kind vault, look-alike PDA with identical bytes, wrong owner program, wrong discriminator, another program, another mint); a cell outside the role table of the statement must be refused; a forged substitute accepted with the golden outcome is re-presented with zeroed data to tell an ignored slot from a read one; plus every instruction x {normal, frozen subject} with the foreign group in the group slot signed by the foreign group's role holders, and marginfi_group_configure rotating each of the seven roles to a fresh key, the zero key and every other role's key (alone and together with a neighbouring role), checked on the stored roles and on the old holder's instruction; distinct_nontrivial = refused cells",
         "instructions": gs.len(),
         "golden_calls_not_exercised": st.not_exercised,
         "slots_unprotected_by_rule": st.unprotected,
